@@ -45,6 +45,14 @@ class PropertyConcept(OntologyElement):
     def __str__(self):
         return f"{self.__property.get_name()}=>{self.__attr['name']}"
 
+    def _set_event_type(self, event_type):
+        self.__event_type = event_type
+        return self
+
+    def _set_property(self, event_property):
+        self.__property = event_property
+        return self
+
     def _child_modified_callback(self):
         """Callback for change tracking"""
         self.__property._child_modified_callback()
@@ -383,7 +391,6 @@ class PropertyConcept(OntologyElement):
             # The new definition is indeed newer. Update self.
             self.set_confidence(property_concept.get_confidence())
             self.set_concept_naming_priority(property_concept.get_concept_naming_priority())
-            self.__event_type = property_concept.__event_type
 
             if property_concept.get_attribute_name_extension() != '':
                 # Attribute has custom name extension
